@@ -4,7 +4,7 @@ import random
 from .common import *
 
 PROP = "C09"
-PROFILES = ["scope", "ro", "attr", "export"]
+PROFILES = ["scope", "ro", "attr", "export", "tmpro"]
 KNOWN_DEVS_ALL = ["IntegerNotEvaluated"]
 PHEAD = '''P() { printf 'R%s_%s\\0' "$__p" "$1"; printf '%s\\0' "${x-U}" "${y-U}" "$(declare -p x y 2>/dev/null)"; envq x y; }
 '''
@@ -113,6 +113,14 @@ def run(tier):
 
     def expected(p):
         e = {}
+        if p.get("dead"):
+            # the last step was refused inside a function: nothing is observed from there on until the top-level command has returned
+            n = len(p["obs"])
+            for k, o in enumerate(p["obs"][:-1]):
+                e[str(k + 1)] = obs_exp(o)
+            depth = sum(1 for st in p["prog"] if st["op"] in ("enter", "tenter")) - sum(1 for st in p["prog"] if st["op"] == "leave")
+            e["c%d" % depth] = obs_exp(p["obs"][-1])
+            return e
         for k, o in enumerate(p["obs"]):
             e[str(k + 1)] = obs_exp(o)
         for j, o in enumerate(p["closing"]):
@@ -157,7 +165,14 @@ def run(tier):
                 continue
             # the FIRST divergence decides: it must be a listed deviation (after it the two states differ anyway)
             k = next((k for k in exp if gr.get(k) != exp[k]), None)
-            if expb[k] != exp[k] and gr.get(k) == expb[k]:
+            if k is None:
+                extra = sorted(set(gr) - set(exp))
+                if known(v, scr, {"op": "close", "w": ""}, None, gr.get(extra[0]) if extra else None):
+                    continue
+                v.violation(scr, {"kind": "the shell went on inside a function after an assignment that must unwind it (observations %s should not exist)" % extra, "profile": prof, "script": scr, "at": extra[0] if extra else "?",
+                                  "expected": None, "observed": gr.get(extra[0]) if extra else None, "prog": p["prog"]})
+                continue
+            if expb.get(k) != exp[k] and gr.get(k) == expb.get(k):
                 f = v.known_dev("IntegerNotEvaluated")
                 if f:
                     v.known(f["id"], f["what"][:110])
@@ -170,8 +185,8 @@ def run(tier):
         raise ToolError("model/bash disagreement rate too high: %d of %d" % (v.audit_disagreements, evals))
     return v.finish({
         "states": states, "transitions": states, "traces_validated_against_impl": evals, "evaluations": evals, "distinct_nontrivial": nontrivial,
-        "rule": "every program of %d steps over the step alphabet of each of four profiles of MC_Env.tla (scope: assignment / local / unset / function call / call with temporary assignment; ro: readonly x eight writers "
-                "(plain, (( )), read, printf -v, for, ${:=}, +=, element); attr: declare -i/-u/-l/-x with values 'a' 'B' '5' '1+1' x writers; export: export / unset / local -x / temporary assignments), function depth <= 3; "
+        "rule": "every program of %d steps over the step alphabet of each of five profiles of MC_Env.tla (scope: assignment / local / unset / function call / call with temporary assignment; ro: readonly x eight writers "
+                "(plain, (( )), read, printf -v, for, ${:=}, +=, element); attr: declare -i/-u/-l/-x with values 'a' 'B' '5' '1+1' x writers; export: export / unset / local -x / temporary assignments; tmpro: refused writers inside functions called under a temporary assignment), function depth <= 3; "
                 "after every step the value, attribute letters and the value received by a child process are compared for x and y%s" % (L, " (profiles capped at 3000 sampled programs in quick; 800 of those that make a variable readonly, which run one per process)" if tier == "quick" else ""),
         "programs": len(cases), "exhaustive": tier != "quick",
         "samples": [{"script": render(c[1]["prog"])} for c in cases[:: max(1, len(cases) // 3)][:3]],
